@@ -144,6 +144,9 @@ func runSeq(c *lib.Ctx, cs seqCase) (sig, what string) {
 				before += len(t.Body)
 				delivered[t.ReqID]++
 			}
+			if len(tasks) > 1 && before >= maxResp {
+				return "seq:batch-exceeds-limit", fmt.Sprintf("op %d: a reply with %d tasks carries %d bytes of task data, which reaches the 30 MiB limit (only a single task may)", i, len(tasks), before)
+			}
 			c.ObserveMax("max:seq.batch_bytes", int64(before))
 			if len(tasks) > 1 {
 				c.Observe("seq.multi-task-batches", 1)
@@ -507,7 +510,7 @@ func runConc(c *lib.Ctx, w *world, cs concCase, agentID uint32) (sig, what strin
 
 func run(c *lib.Ctx) {
 	c.Rule("seq: all sequences of length <= 6 over {enq small, enq big(16 MiB), check-in} (exhaustive) + random sequences with size classes {0, 1 KiB, 10 MiB, 30 MiB-64, 30 MiB, 40 MiB}; chunk: uploads of {0, 1, C-1, C, C+1} (+{2C-1, 2C, 2C+1} thorough) bytes, C = 30 MiB; conc: 2-3 operator goroutines x 2-4 enqueues against a consumer doing 3-5 check-ins (+ drain) on one agent, hooks queue.add / queue.get.writeback = none|yield|sleep; distinct = distinct case description (+ history index for conc); non-trivial = at least one task delivered")
-	c.Assume("the reference decoder reads the reply as CommandDispatcher does", "the size rule asserted is the statement's: a reply does not continue after the data already in it reached 30 MiB; maximal batching is not demanded",
+	c.Assume("the reference decoder reads the reply as CommandDispatcher does", "the size rule asserted: a reply with more than one task carries less than 30 MiB of task data (a single larger task is delivered alone); maximal batching is not demanded",
 		"concurrent histories are stamped at the client boundary (before the call, after the reply) with one atomic counter")
 	if c.Replay != nil {
 		var k struct {
